@@ -281,7 +281,7 @@ def targeted(game, rng: Rng, ctx) -> None:
             continue
         c = comps[host]
         # executions and accesses need an observed application / file on this host: prefer them whenever there is one
-        options = [0] * (4 if c["applications"] else 0) + [1] * (4 if c["files"] else 0) + [2, 3, 4, 4, 5]
+        options = [0] * (4 if c["applications"] else 0) + [1] * (4 if c["files"] else 0) + [2, 3, 4, 4, 5, 6, 6, 7]
         k = rng.choice(options)
         try:
             if k == 0 and c["applications"]:
@@ -321,6 +321,20 @@ def targeted(game, rng: Rng, ctx) -> None:
                 usm = node.user_session_manager
                 usm.local_login("admin", "admin") if rng.chance(2, 3) else usm.local_logout()
                 ctx.count("targeted:local-login/logout")
+            elif k == 6:
+                links = list(game.simulation.network.links.values())
+                if links:
+                    link = rng.choice(links)
+                    link.current_load = link.bandwidth * rng.choice([0.03, 0.12, 0.3, 0.5, 0.62, 0.77, 0.95, 1.0, 2.0])
+                    ctx.count("targeted:link-load-inside-the-tick")
+            elif k == 7 and node.network_interface:
+                nic = rng.choice(list(node.network_interface.values()))
+                sp = nic.speed
+                nic.traffic = {"icmp": {"inbound": sp * rng.choice([0, 0.02, 0.3, 0.6, 1.5]), "outbound": sp * 0.25},
+                               "tcp": {80: {"inbound": sp * rng.choice([0, 0.12, 0.5, 0.95, 10.0]), "outbound": 0}, 53: {"inbound": sp * 0.4, "outbound": sp * 0.7},
+                                       5432: {"inbound": sp * 0.03, "outbound": sp * 0.07}},
+                               "udp": {53: {"inbound": sp * rng.choice([0.2, 0.8]), "outbound": sp * 0.01}}}
+                ctx.count("targeted:nic-traffic-inside-the-tick")
         except Exception as e:  # noqa: BLE001 - a refused event is not an observation concern
             ctx.count(f"targeted:refused:{type(e).__name__}")
 
